@@ -116,6 +116,8 @@ class Runner:
         self.foreign_keys = []
         self.accepted_bad = {0: [], 1: []}   # manipulated frames a client accepted (phase newly processed)
         self.tampered = False
+        self.dropped = False
+        self.exc_override = {}
         self.nonce_ctr = 0
 
     # -- helpers on the real clients
@@ -126,15 +128,37 @@ class Runner:
         # a client that already closed with an error computes the key without telling the application
         return self.W.clients[ci].boss._R._key
 
+    def processed(self, ci):
+        """Mailbox._processed as a set of strings; None when the attribute is missing or not a collection of str"""
+        p = getattr(self.W.clients[ci].boss._M, "_processed", None)
+        try:
+            p = set(p)
+        except TypeError:
+            return None
+        return p if all(isinstance(x, str) for x in p) else None
+
     def state_line(self, ci, exc, new_events):
+        """the canonical observation of client ci; whatever cannot be observed becomes an explicit marker, so a
+        changed implementation shows up as a disagreement (and goes to the oracle), never as a harness crash"""
         c = self.W.clients[ci]
         b = c.boss
-        st = c.states()
-        proc = ",".join(sorted(hs(p) for p in b._M._processed))
-        pend = ",".join(hs(p) for p in b._M._pending_outbound.keys())
-        ex = EXC_KIND.get(exc, exc) if exc else "-"
+        ex = self.kind(exc) if exc else "-"
+
+        def obs(f):
+            try:
+                return f()
+            except Exception as e:  # noqa
+                return "<unobservable:%s>" % type(e).__name__
+        st = obs(c.states)
+        if isinstance(st, str):
+            st = {k: st for k in ("M", "O", "K", "SK", "R", "B")}
+        pr = self.processed(ci)
+        proc = "<unobservable>" if pr is None else ",".join(sorted(hs(p) for p in pr))
+        pend = obs(lambda: ",".join(hs(p) for p in b._M._pending_outbound.keys()))
+        oq = obs(lambda: len(b._O._queue))
+        nxt = obs(lambda: f"{b._next_rx_phase}/{b._next_rx_dilate_seqnum}")
         return (f"{ex} M={st['M']} O={st['O']} K={st['K']} SK={st['SK']} R={st['R']} B={st['B']} proc={proc} pend={pend} "
-                f"oq={len(b._O._queue)} next={b._next_rx_phase}/{b._next_rx_dilate_seqnum} | {' '.join(new_events)}")
+                f"oq={oq} next={nxt} | {' '.join(new_events)}")
 
     def snapshot(self, ci):
         c = self.W.clients[ci]
@@ -178,7 +202,7 @@ class Runner:
                 if v in ("happy", "LonelyError", "WrongPasswordError"):
                     out.append("closed:" + v)
                 else:
-                    out.append("closed:error:" + EXC_KIND.get(v, v))
+                    out.append("closed:error:" + self.kind(v))
             else:
                 out.append(name)
         dil = list(c.boss._D._pending_inbound_dilate_messages)[n_dil:]
@@ -201,6 +225,7 @@ class Runner:
 
     # -- classification of a `message` frame addressed to client ci
     def wellformed_elem(self, elem):
+        """does a fresh, unrelated SPAKE2 instance accept the element?"""
         try:
             s = SPAKE2_Symmetric(b"x", idSymmetric=b"y")
             s.start()
@@ -208,6 +233,23 @@ class Runner:
             return True
         except Exception:
             return False
+
+    def guarded_ws_message(self, c, payload):
+        """like World._guard, but an exception raised from inside the spake2 package is 'spake2 refused the element'
+        (PakeError) for this step, whatever its class is called (spake2 uses ValueError, AssertionError, SPAKEError…)"""
+        import traceback
+        try:
+            c.rc.ws_message(payload)
+            return None
+        except Exception as e:  # noqa
+            name = type(e).__name__
+            if any("/spake2/" in fs.filename for fs in traceback.extract_tb(e.__traceback__)):
+                self.exc_override = {name: "PakeError"}
+            c.internal.append((name, str(e)[:200]))
+            return name
+
+    def kind(self, name):
+        return self.exc_override.get(name) or EXC_KIND.get(name, name)
 
     def describe(self, ci, side, phase, body):
         """-> (descriptor tokens, legit?)"""
@@ -284,17 +326,23 @@ class Runner:
         snap = self.snapshot(ci)
         if t == "message":
             side, phase, body = msg["side"], msg["phase"], bytes.fromhex(msg["body"])
+            self.exc_override = {}
             desc, legit = self.describe(ci, side, phase, body)
-            before = set(c.boss._M._processed)
-            exc = W._guard(c, lambda: c.rc.ws_message(payload))
-            accepted = phase in c.boss._M._processed and phase not in before
+            before = self.processed(ci) or set()
+            nrx0 = c.boss._O._queue.__len__(), len(c.events)
+            exc = self.guarded_ws_message(c, payload)
+            after = self.processed(ci)
+            # accepted = it got past Mailbox's dedup (when `_processed` cannot be read: it had an effect further up)
+            accepted = (phase in after and phase not in before) if after is not None else \
+                ((c.boss._O._queue.__len__(), len(c.events)) != nrx0 or exc is not None)
             if accepted and not legit:
                 self.accepted_bad[ci].append((side, phase, desc))
             self.tags.add("rx:" + desc.split(" ")[0] + (":" + desc.split(" ")[1] if desc[0] == "P" else "") +
                           (":legit" if legit else ":bad") + (":accepted" if accepted else ":ignored"))
             evs = self.line(ci, f"rx {hs(side)} {hs(phase)} {desc}", exc, snap)
             if exc:
-                self.tags.add("exc:" + EXC_KIND.get(exc, exc))
+                self.tags.add("exc:" + self.kind(exc))
+            self.exc_override = {}
             for e in evs:
                 self.tags.add("ev:" + e.split(":")[0] + (":" + e.split(":")[1] if e.startswith("closed") else ""))
         else:
@@ -388,7 +436,7 @@ class Runner:
     def other_side(self, ci, arg):
         c = self.W.clients[ci]
         o = self.W.clients[1 - ci]
-        return [o.side, "feedfeed00", "abc", "x" * 12, "sé"][arg % 5] if arg % 5 != 0 else o.side
+        return [o.side, "feedfeed00", "abc", "x" * 12, "sé", c.side + "é", o.side + "é", "é" + c.side][arg % 8]
 
     # -- one script op
     def do(self, op):
@@ -401,6 +449,28 @@ class Runner:
                 snap = self.snapshot(ci)
                 r = W.open(ci)
                 self.line(ci, "connected", None if r in ("ok", "noop") else r, snap)
+        elif k == "drop":            # the connection is lost; a later ["open", c] re-opens the mailbox (server replays it all)
+            ci = op[1]
+            c = W.clients[ci]
+            if c.conn is not None and c.svc.started:
+                snap = self.snapshot(ci)
+                r = W.drop(ci)
+                self.dropped = True
+                self.tags.add("op:drop")
+                self.line(ci, "lost", None if r in ("ok", "noop") else r, snap)
+        elif k == "relabel":         # a genuine ciphertext of client `who` to client ci under a decorated label
+            ci, who, n, side_sfx, phase_sfx = op[1:6]
+            mode = op[6] if len(op) > 6 else "append"
+            adds = [m for m in W.sent[who] if m.get("type") == "add" and m["phase"] != "pake"]
+            if adds:
+                m = adds[n % len(adds)]
+                side = W.clients[who].side + side_sfx
+                ph = m["phase"]
+                phase = {"append": ph + phase_sfx, "prepend": phase_sfx + ph,
+                         "insert": ph[:1] + phase_sfx + ph[1:]}[mode]
+                if self.queue(ci, side, phase, bytes.fromhex(m["body"])):
+                    self.tags.add("op:relabel:" + ("own" if who == ci else "peer") + (":side" if side_sfx else "") +
+                                  (":phase" if phase_sfx else ""))
         elif k == "nameplate":       # input_code mode: nameplate first
             ci = op[1]
             c = W.clients[ci]
@@ -581,7 +651,7 @@ class Runner:
                 self.viol.append(("closed-twice", f"client {ci}: closed delivered {len(closed)} times: {closed}"))
             if self.accepted_bad[ci] and closed and closed[-1] == "happy":
                 self.viol.append(("manipulated-accepted-happy", f"client {ci} accepted manipulated frame(s) {self.accepted_bad[ci][:2]} and still closed happy"))
-        if not self.tampered and self.case.get("honest"):
+        if not self.tampered and not self.dropped and self.case.get("honest"):
             for ci in (0, 1):
                 c, o = W.clients[ci], W.clients[1 - ci]
                 want = [h for op in self.case["script"] if op[0] == "send" and op[1] == 1 - ci for h in [op[2]]]
@@ -628,12 +698,15 @@ def base_script(rng, ka, kb, mode, early_sends):
     return s
 
 
-PHASES = ["0", "1", "2", "5", "version", "pake", "dilate-0", "dilate-1", "00", "01", "1\n", "dilate-0\n", "foo", "", "-1", "dilate-", "dilate-x", "vé"]
+UDIGITS = ["\u0660", "\u0661", "\u0662", "\u0663", "\uff10", "\uff11", "\uff12", "\u0967"]   # Arabic-Indic, full-width, Devanagari
+PHASES = ["0", "1", "2", "5", "version", "pake", "dilate-0", "dilate-1", "00", "01", "1\n", "dilate-0\n", "foo", "", "-1", "dilate-", "dilate-x", "vé",
+          "0\u0661", "\u06600", "1\uff11", "\u0661", "versi\u00f6on", "dilate-0\u0660", "0é"]
 VERSIONS_PT = [b'{"app_versions": {"k": 1}}', b'{}', b'{"app_versions": {}, "extra": [1]}', b'not json']
 
 
 def tamper_op(rng, ci):
     kind = rng.choice(["flip", "flip", "trunc", "extend", "random", "phase", "phase", "side", "side", "dupmsg", "swapmsg",
+                       "relabel", "relabel", "relabel-own", "uniphase",
                        "swaplabels", "replay", "replay", "reflect", "reflect", "reflectpake", "fabpake", "fabpake",
                        "keyholder", "keyholder", "keyholder-own", "foreign", "inject"])
     i = rng.randrange(8)
@@ -642,7 +715,14 @@ def tamper_op(rng, ci):
     if kind == "phase":
         return ["tamper", ci, i, "phase", rng.choice(PHASES)]
     if kind == "side":
-        return ["tamper", ci, i, "side", rng.randrange(1, 5)]
+        return ["tamper", ci, i, "side", rng.randrange(1, 8)]
+    if kind == "relabel":        # the peer's genuine ciphertext under its label decorated with non-ASCII characters
+        return ["relabel", ci, 1 - ci, rng.randrange(8), rng.choice(["", "", "é", "\u00e5"]),
+                rng.choice(UDIGITS + ["", "é"]), rng.choice(["append", "append", "prepend", "insert"])]
+    if kind == "relabel-own":    # our own ciphertext reflected under (own side + accent)
+        return ["relabel", ci, ci, rng.randrange(8), rng.choice(["é", "\u00e5", "\u0661"]), rng.choice(["", "", "\u0661"]), "append"]
+    if kind == "uniphase":       # a queued frame re-labelled: its phase with a Unicode digit appended
+        return ["tamper", ci, i, "phase", rng.choice(["0", "1", "2"]) + rng.choice(UDIGITS)]
     if kind == "dupmsg":
         return ["dupmsg", ci, i]
     if kind == "swapmsg":
@@ -652,9 +732,9 @@ def tamper_op(rng, ci):
     if kind == "replay":
         return ["replay", ci, i, rng.choice(PHASES)]
     if kind == "reflect":
-        return ["reflect", ci, rng.randrange(8), rng.randrange(0, 4), rng.choice([None, None, rng.choice(PHASES)])]
+        return ["reflect", ci, rng.randrange(8), rng.randrange(0, 8), rng.choice([None, None, rng.choice(PHASES)])]
     if kind == "reflectpake":
-        return ["reflect", ci, 0, rng.randrange(0, 4), None]
+        return ["reflect", ci, 0, rng.randrange(0, 8), None]
     if kind == "fabpake":
         return ["fabpake", ci, rng.choice(["missing", "notjson", "badelem", "offside", "stranger", "ext"]), rng.randrange(0, 4)]
     if kind == "keyholder":
@@ -685,6 +765,17 @@ def gen_case(rng, ntamper=None):
         if rng.random() < 0.3:        # let the victim process it straight away
             ins.append(["s2c", ci])
         s[p:p] = ins
+    if rng.random() < 0.3:
+        # the connection of one client drops somewhere after the start and is re-opened (the server then replays the
+        # whole mailbox); optionally a selective replay / duplicate on top of it
+        pos = [i + 1 for i, op in enumerate(s) if op[0] == "pump"]
+        p = rng.choice(pos[len(pos) // 2:] if rng.random() < 0.7 else pos)
+        ci = rng.randrange(2)
+        ins = [["drop", ci], ["open", ci], ["pump", rng.choice([1, 2, 4, 8])]]
+        if rng.random() < 0.4:
+            ins.append(rng.choice([["dupmsg", ci, rng.randrange(8)], ["replay", ci, rng.randrange(8), rng.choice(PHASES)],
+                                   ["relabel", ci, 1 - ci, rng.randrange(8), "", "", "append"]]))
+        s[p:p] = ins
     return dict(kind="run", seed=rng.randrange(10**6), honest=(nt == 0), script=s)
 
 
@@ -710,6 +801,35 @@ def corpus():
         # before key agreement: the forged frame is the first thing client 1 sees from the mailbox
         out.append(dict(kind="run", seed=4, honest=False, script=H + [["c2s", 0], ["c2s", 0], ["c2s", 0], ["c2s", 0], ["c2s", 1], ["c2s", 1], ["c2s", 1], ["c2s", 1],
                                                                      ["s2c", 1], ["s2c", 1], ["s2c", 1], ["s2c", 1], t, ["settle"]]))
+    # reconnect after key agreement: the server replays the whole mailbox (pake, version, phases) on re-open;
+    # then selective replays of the peer's version / pake / phase 0 on the new connection
+    AK = H + [["send", 0, "aa01"], ["send", 1, "bb01"], ["pump", 8], ["send", 0, "aa02"], ["pump", 3]]
+    for ci in (0, 1):
+        out.append(dict(kind="run", seed=8, honest=False, script=AK + [["drop", ci], ["open", ci], ["settle"]]))
+        out.append(dict(kind="run", seed=8, honest=False, script=AK + [["drop", ci], ["open", ci], ["pump", 6],
+                                                                      ["relabel", ci, 1 - ci, 0, "", "", "append"],
+                                                                      ["relabel", ci, 1 - ci, 1, "", "", "append"], ["settle"]]))
+        out.append(dict(kind="run", seed=8, honest=False, script=AK + [["drop", ci], ["open", ci], ["pump", 2], ["dupmsg", ci, 0],
+                                                                      ["dupmsg", ci, 1], ["drop", ci], ["open", ci], ["settle"]]))
+    out.append(dict(kind="run", seed=8, honest=False, script=H + [["pump", 3], ["drop", 1], ["open", 1], ["send", 0, "aa01"], ["settle"]]))
+    # non-ASCII labels whose ASCII residue is an honest label (UnicodeEncodeError -> closes with error):
+    # the peer's phase-0 body again as "0"+ARABIC-INDIC ONE (int() = 1) once phase 0 was delivered; the same before the
+    # genuine message; our own ciphertext under (own side + accent) before the peer's message of that phase
+    for sfx, mode in [("\u0661", "append"), ("\uff11", "append"), ("\u0660", "prepend"), ("\u0967", "append"), ("é", "append")]:
+        out.append(dict(kind="run", seed=9, honest=False,
+                        script=H + [["send", 0, "aa01"], ["pump", 8], ["relabel", 1, 0, 1, "", sfx, mode], ["s2c", 1],
+                                    ["send", 0, "aa02"], ["settle"]]))
+        out.append(dict(kind="run", seed=9, honest=False,
+                        script=H + [["send", 0, "aa01"], ["send", 0, "aa02"], ["pump", 4], ["c2s", 0], ["c2s", 0], ["c2s", 0],
+                                    ["relabel", 1, 0, 1, "", sfx, mode], ["swapmsg", 1, 0, 7], ["settle"]]))
+    for sfx in ["é", "\u00e5", "\u0661"]:
+        out.append(dict(kind="run", seed=9, honest=False,
+                        script=H + [["send", 1, "bb01"], ["send", 1, "bb02"], ["pump", 8], ["relabel", 1, 1, 1, sfx, "", "append"],
+                                    ["s2c", 1], ["send", 0, "aa01"], ["settle"]]))
+        out.append(dict(kind="run", seed=9, honest=False,
+                        script=H + [["pump", 8], ["relabel", 1, 1, 0, sfx, "", "append"], ["s2c", 1], ["settle"]]))
+        out.append(dict(kind="run", seed=9, honest=False,
+                        script=H + [["send", 0, "aa01"], ["pump", 8], ["relabel", 1, 0, 1, sfx, "", "append"], ["s2c", 1], ["settle"]]))
     # input_code: the peer's (or a forged) PAKE arrives before the words
     I = [["open", 0], ["open", 1], ["code", 0], ["nameplate", 1], ["pump", 10]]
     out.append(dict(kind="run", seed=5, honest=True, script=I + [["code", 1], ["send", 0, "01"], ["settle"]]))
@@ -720,7 +840,7 @@ def corpus():
 
 def cases(rng, tier):
     out = corpus()
-    n = 400 if tier == "quick" else 5000
+    n = 380 if tier == "quick" else 4500
     for _ in range(n):
         out.append(gen_case(rng))
     if tier == "thorough":
@@ -729,12 +849,22 @@ def cases(rng, tier):
         ops = [["tamper", 1, 0, "flip", 3], ["tamper", 1, 0, "trunc", 5], ["tamper", 1, 0, "extend", 1], ["tamper", 1, 0, "phase", "1"],
                ["tamper", 1, 0, "side", 1], ["dupmsg", 1, 0], ["replay", 1, 0, "7"], ["reflect", 1, 0, 1, None], ["reflect", 1, 1, 1, None],
                ["reflect", 1, 2, 1, None], ["fabpake", 1, "stranger", 0], ["fabpake", 1, "missing", 0], ["swaplabels", 1, 0, 1]]
+        ops = [[t] for t in ops] + [[["drop", 1], ["open", 1]], [["drop", 1], ["open", 1], ["pump", 3], ["dupmsg", 1, 0]],
+                                    [["relabel", 1, 0, 1, "", "\u0661", "append"]], [["relabel", 1, 1, 1, "é", "", "append"]],
+                                    [["relabel", 1, 0, 0, "é", "", "append"]]]
         for npump in range(0, 14):
-            for t in ops:
+            for grp in ops:
                 for ci in (0, 1):
-                    t2 = list(t)
-                    t2[1] = ci
-                    out.append(dict(kind="run", seed=7, honest=False, script=H + [["pump", 1]] * npump + [t2, ["s2c", ci], ["send", 0, "a1"], ["settle"]]))
+                    g2 = []
+                    for t in grp:
+                        t2 = list(t)
+                        if t2[0] == "relabel":
+                            t2[2] = ci if t2[2] == t2[1] else 1 - ci
+                        if t2[0] != "pump":
+                            t2[1] = ci
+                        g2.append(t2)
+                    out.append(dict(kind="run", seed=7, honest=False,
+                                    script=H + [["pump", 1]] * npump + g2 + [["s2c", ci], ["send", 0, "a1"], ["settle"]]))
     return out
 
 
